@@ -1,5 +1,127 @@
-(* PickleIO.v — stub: replaced by the real decoder/runner when the property is built. *)
-From Coq Require Import List.
-From M Require Import Sx.
+(* PickleIO.v — decoding of generated cases and encoding of observations for the pickling
+   model (dispatch kind 13).  Instance: configuration = a token, model state = the model's tag,
+   graph = (configuration token, state it was generated for).
+   case := [[graph; nested; locked; async]; qmodel; mctx; wmodels; wlocks; script; rmoff; rloff;
+            ncont; nflags; nindep]
+     mctx    : identities of the machine_context objects
+     wmodels : list of [identity; tag; hashable]
+     wlocks  : list of [identity; name; held; picklable]
+     script  : table operations before the snapshot: [0; identity; model_context identities] add_model,
+               [1; identity] remove_model
+     rmoff, rloff : the copy of object i gets identity i + offset
+   observation := [1; hooks; [0]]                  pickling raises TypeError
+                | [1; hooks; [1; rekey; behaviour]]
+     hooks  : 0 default / 1 LockedMachine / 2 GraphMachine __getstate__/__setstate__ in effect
+     rekey  : [tags of the copy's models; identities disjoint;
+               keys of the ORIGINAL's model_context_map, model_graphs, queue dict, classified;
+               keys of the COPY's model_context_map, classified; per model of the copy its contexts
+               [name; held; position in the copy's machine_context or 99];
+               keys of the copy's model_graphs; per model: graph present and equal to a regenerated one;
+               keys of the copy's queue dict; per model: has a queue; the copy's machine_context [name; held]]
+       a key is classified [0; k] = identity of the copy's k-th model, [1; k] = identity of the
+       original's k-th model, [2; 0] = anything else
+     behaviour : the prediction of theorems C15_same / C15_independent for the harness's
+       comparison flags: all equal (ncont rows of nflags ones, nindep ones) *)
+From Coq Require Import List Arith Bool.
+From M Require Import Sx Pickle.
 Import ListNotations.
-Definition run_pickle_case (x : sx) : sx := L [N 0].
+
+Definition iC := nat.
+Definition iS := nat.
+Definition iG := (nat * option nat)%type.
+Definition irender (c : iC) (s : option iS) : iG := (c, s).
+
+Definition d_cls (x : sx) : option cls :=
+  match x with
+  | L [g; n; l; a] =>
+      do g' <- d_bool g; do n' <- d_bool n; do l' <- d_bool l; do a' <- d_bool a;
+      Some (mkCls g' n' l' a')
+  | _ => None
+  end.
+Definition d_wmodel (x : sx) : option (ident * mobj iS) :=
+  match x with
+  | L [N i; N t; h] => do h' <- d_bool h; Some (i, mkMobj t h')
+  | _ => None
+  end.
+Definition d_wlock (x : sx) : option (ident * lobj) :=
+  match x with
+  | L [N i; N n; h; p] => do h' <- d_bool h; do p' <- d_bool p; Some (i, mkLobj n h' p')
+  | _ => None
+  end.
+Definition d_tabop (x : sx) : option tabop :=
+  match x with
+  | L [N 0; N i; c] => do c' <- d_list d_nat c; Some (TAdd i c')
+  | L [N 1; N i] => Some (TRemove i)
+  | _ => None
+  end.
+
+Fixpoint index_of (n : nat) (l : list nat) (k : nat) : option nat :=
+  match l with
+  | [] => None
+  | x :: r => if Nat.eqb n x then Some k else index_of n r (S k)
+  end.
+Definition classify (newm oldm : list ident) (key : ident) : sx :=
+  match index_of key newm 0 with
+  | Some k => L [N 0; N k]
+  | None => match index_of key oldm 0 with
+            | Some k => L [N 1; N k]
+            | None => L [N 2; N 0]
+            end
+  end.
+Definition gen_eqb (a b : iG) : bool :=
+  Nat.eqb (fst a) (fst b) &&
+  match snd a, snd b with
+  | Some x, Some y => Nat.eqb x y
+  | None, None => true
+  | _, _ => false
+  end.
+Definition disjointb (a b : list nat) : bool := forallb (fun x => negb (nmem x b)) a.
+
+Definition e_ctx (w : world iS) (mctx : list ident) (l : ident) : sx :=
+  match lookup (w_locks w) l with
+  | Some o => L [N (lo_name o); e_bool (lo_held o);
+                 N (match index_of l mctx 0 with Some k => k | None => 99 end)]
+  | None => L [N 98; N 0; N 99]
+  end.
+
+Definition e_rekey (w : world iS) (m : machine iC iG) (w' : world iS) (m' : machine iC iG) : sx :=
+  let newm := m_models m' in
+  let oldm := m_models m in
+  L [ L (map (fun i => e_option e_nat (state_of w' i)) newm);
+      e_bool (disjointb newm oldm && disjointb (all_locks m') (all_locks m));
+      L (map (classify [] oldm) (keys (m_cmap m)));
+      L (map (classify [] oldm) (keys (m_graphs m)));
+      L (map (classify [] oldm) (m_qkeys m));
+      L (map (classify newm oldm) (keys (m_cmap m')));
+      L (map (fun i => L (map (e_ctx w' (m_mctx m')) (lookup_list (m_cmap m') i))) newm);
+      L (map (classify newm oldm) (keys (m_graphs m')));
+      L (map (fun i => e_bool (match lookup (m_graphs m') i with
+                               | Some g => gen_eqb g (irender (m_cfg m') (state_of w' i))
+                               | None => false
+                               end)) newm);
+      L (map (classify newm oldm) (m_qkeys m'));
+      L (map (fun i => e_bool (nmem i (m_qkeys m'))) newm);
+      L (map (fun l => match lookup (w_locks w') l with
+                       | Some o => L [N (lo_name o); e_bool (lo_held o)]
+                       | None => L [N 98; N 0]
+                       end) (m_mctx m')) ].
+
+Definition run_pickle_case (x : sx) : sx :=
+  match x with
+  | L [kx; qx; cx; mx; lx; sx_; N rmoff; N rloff; N ncont; N nflags; N nindep] =>
+      match d_cls kx, d_bool qx, d_list d_nat cx, d_list d_wmodel mx, d_list d_wlock lx,
+            d_list d_tabop sx_ with
+      | Some k, Some q, Some mctx, Some wm, Some wl, Some script =>
+          let w := mkW wm wl in
+          let m := fold_left (tab_step irender w) script (init_machine k 0 q mctx) in
+          L [N 1; N (hooks_code (effective_hooks k));
+             match snapshot irender (fun i => i + rmoff) (fun l => l + rloff) w m with
+             | None => L [N 0]
+             | Some (w', m') =>
+                 L [N 1; e_rekey w m w' m';
+                    L [L (repeat (L (repeat (N 1) nflags)) ncont); L (repeat (N 1) nindep)]]
+             end]
+      | _, _, _, _, _, _ => L [N 0]
+      end
+  | _ => L [N 0]
+  end.
